@@ -27,6 +27,7 @@ ASSUMPTIONS = ["std::mem::replace(self, other) stores other into self", "redb ta
 
 EXPLANATION += ' (R10, round 8) also the RPC handlers doc_set (one local insert with the hash of exactly the stored blob and the length of exactly the value, read back for the same triple) and doc_create. (R12) = C14.R3 (sync stays enabled across further opens). (R13) Store::load_replica_info / new_replica evaluated: a document is opened with from_raw of exactly the row stored under its own id; a created document stores the write capability of its secret.'
 EXPLANATION += ' Round 9: R11 also carries the destructor rows of C06.R4 (a capability imported just before the store is dropped survives the reopen).'
+EXPLANATION += ' (R14, round 11) who-may-construct: ReplicaInfo is built only by Store::load_replica_info - no memo of an earlier open anywhere.'
 
 
 def r1(ctx):
